@@ -65,13 +65,9 @@ def eval_adverb_each(f, a, op, backend):
     if isinstance(a,str):
         if is_empty(a):
             return a
-        has_str = False
-        r = []
-        for x in backend.str_to_chr_arr(a):
-            u = f(x)
-            has_str |= isinstance(u,str)
-            r.append(u)
-        return ''.join(r) if has_str else backend.kg_asarray(r)
+        r = [f(x) for x in backend.str_to_chr_arr(a)]
+        # a list of characters is a string; strings (or anything else) stay list members
+        return ''.join(r) if all(is_char(u) for u in r) else backend.kg_asarray(r)
     if is_iterable(a):
         r = [f(x) for x in a]
         return a if is_empty(a) else backend.kg_asarray(r)
